@@ -1050,9 +1050,21 @@ func main() {
 	header := "From V.C10 Require Import Model Machine Harness.\nFrom Coq Require Import ZArith List.\nImport ListNotations.\nLocal Open Scope Z_scope.\n" +
 		"Definition NR := no_row.\nDefinition tabs : list params := [\n" + strings.Join(tabTerms, ";\n") + "].\n" +
 		"Definition chk (fc : nat * ccase) : bool := check (nth (fst fc) tabs (mkParams [] 1)) (snd fc).\nLocal Close Scope Z_scope."
-	cs := hx.NewCases(a.Out, header, "nat * ccase", "chk", 350)
+	cs := hx.NewCases(a.Out, header, "nat * ccase", "chk", 300)
+	// model cases are buffered and written in a seeded shuffle so that every shard holds the same mix of
+	// cheap (opcode) and expensive (program) cases
+	type pending struct {
+		term string
+		js   interface{}
+	}
+	var buf []pending
 	addCase := func(f vmx.Fork, term string, js interface{}) {
-		cs.Add(fmt.Sprintf("(%d%%nat, %s)", f.Index(), term), js)
+		buf = append(buf, pending{fmt.Sprintf("(%d%%nat, %s)", f.Index(), term), js})
+	}
+	gridSel := 0
+	thin := func() bool { // quick tier: one third of the grid goes to the model (all of it is searched directly)
+		gridSel++
+		return thorough || (gridSel+int(a.Seed))%3 == 0
 	}
 	allOn := vmx.Fork{P014: true, P022: true, P026: true}
 	pickFork := func() vmx.Fork {
@@ -1104,7 +1116,7 @@ func main() {
 		case 2:
 			for _, x := range grid {
 				for _, y := range grid {
-					opCase(allOn, o, x, y, zero, true, "grid")
+					opCase(allOn, o, x, y, zero, thin(), "grid")
 				}
 			}
 		case 3:
@@ -1127,7 +1139,7 @@ func main() {
 								k++
 							}
 						}
-						opCase(allOn, o, x, y, z, k <= 1, "grid")
+						opCase(allOn, o, x, y, z, k <= 1 && thin(), "grid")
 					}
 				}
 			}
@@ -1442,6 +1454,14 @@ func main() {
 		}
 	}
 
+	sh := hx.NewRng(a.Seed ^ 0x5eed)
+	for i := len(buf) - 1; i > 0; i-- {
+		j := sh.Intn(i + 1)
+		buf[i], buf[j] = buf[j], buf[i]
+	}
+	for _, p := range buf {
+		cs.Add(p.term, p.js)
+	}
 	res.ModelCases = cs.Total()
 	cs.Close()
 	keys := make([]string, 0, len(res.Histogram))
